@@ -12,6 +12,7 @@ P = ['C02', 'C01', 'C12']
 
 def build():
     U = Unit('SHORT', props=P)
+    U.default_closures = True     # rule-based D3/D16 (vlib/closures.py) applies to every function of this unit
     U.tag_loops = True     # loop invariants state property-relevant facts about abstractions: a failing one is reported
     k = U.file(SK)
     k.item('enum', 'SyntaxKind')
